@@ -1,0 +1,19 @@
+//go:build verif
+
+package arraylist
+
+// VerifBacking returns a copy of the whole backing array (length = capacity), slack included.
+// Read-only accessor for the verification harness.
+func (l *List[E]) VerifBacking() []E {
+	full := l.elements[:cap(l.elements)]
+	out := make([]E, len(full))
+	copy(out, full)
+	return out
+}
+
+// VerifBacking returns a copy of the wrapped list's backing array.
+func (s *ListSafe[E]) VerifBacking() []E {
+	s.lock.Lock()
+	defer s.lock.Unlock()
+	return s.unsafe.VerifBacking()
+}
